@@ -7,6 +7,7 @@
 //! API on doc C itself and on the twin), every output cell (also against the Coq model), observers' events, sticky
 //! indexes, snapshots and the undo manager's stacks must agree; a share of the cases adds a third native replica that
 //! exchanges updates with C through `ytransaction_apply*` / `ytransaction_state_diff_*` and must converge.
+mod docobs;
 mod obs;
 mod ops;
 mod vals;
@@ -15,6 +16,7 @@ mod walk;
 use crate::report::{catch, Report};
 use crate::rng::Rng;
 use crate::yffi as y;
+use docobs::*;
 use obs::*;
 use ops::*;
 use serde_json::json;
@@ -61,7 +63,7 @@ pub fn run_range(_tier: &str, seed: u64, lo: u64, hi: u64) -> Report {
             Ok(Err(mut f)) => { f["property"] = json!("C19"); f["case"] = case.clone(); f["script"] = json!(script); if debug { eprintln!("FAIL {}", f); } rep.fail(f); }
             Err(msg) => { rep.fail(json!({"property": "C19", "class": "rust-side-panicked", "error": msg, "case": case.clone(), "script": script})); }
         }
-        rep.count(&format!("mode:{}", info.mode));
+        for part in info.mode.split('+') { rep.count(&format!("mode:{}", part)); }
         if info.nested || info.exchange { rep.nontrivial_case(&script.join("\n")); }
         if index % 97 == 0 { rep.sample(json!({"case": case, "mode": info.mode, "script_head": script.iter().take(12).collect::<Vec<_>>()})); }
     }
@@ -72,7 +74,7 @@ pub fn run_range(_tier: &str, seed: u64, lo: u64, hi: u64) -> Report {
 #[derive(Default)]
 struct Info { mode: String, nested: bool, exchange: bool }
 
-struct CSide { doc: *mut y::Doc, roots: [*mut y::Branch; 4], txn: *mut y::Transaction, subs: Vec<*mut y::Subscription>, states: Vec<*mut ObsState>, stickies: Vec<*mut y::YStickyIndex>, mgr: *mut y::YUndoManager }
+struct CSide { doc: *mut y::Doc, roots: [*mut y::Branch; 4], txn: *mut y::Transaction, subs: Vec<*mut y::Subscription>, states: Vec<*mut ObsState>, stickies: Vec<*mut y::YStickyIndex>, mgr: *mut y::YUndoManager, dobs: *mut DocObs }
 impl Drop for CSide {
     fn drop(&mut self) {
         unsafe {
@@ -81,6 +83,7 @@ impl Drop for CSide {
             if !self.mgr.is_null() { y::yundo_manager_destroy(self.mgr); }
             for s in self.stickies.drain(..) { y::ysticky_index_destroy(s); }
             for s in self.states.drain(..) { drop(Box::from_raw(s)); }
+            if !self.dobs.is_null() { drop(Box::from_raw(self.dobs)); }
             y::ydoc_destroy(self.doc);
         }
     }
@@ -106,6 +109,7 @@ unsafe fn commit(c: &mut CSide) { let t = c.txn; c.txn = null_mut(); y::ytransac
 /// encoded state and state vector of doc C (through transaction `ct`) against the twin's
 /// equal bytes; in cases that keep multi-key json maps / attributes (HashMap order, see ops.rs) equal up to a permutation
 fn bytes_match(cx: &mut Cx, c: Option<&[u8]>, r: &[u8], exact: bool) -> bool { bytes_match_v(cx, c, r, exact, false) }
+fn bytes_match_quiet(a: &[u8], b: &[u8], exact: bool) -> bool { if a == b { return true; } if exact || a.len() != b.len() { return false; } let (mut x, mut y) = (a.to_vec(), b.to_vec()); x.sort(); y.sort(); x == y }
 fn bytes_match_v(cx: &mut Cx, c: Option<&[u8]>, r: &[u8], exact: bool, v2: bool) -> bool {
     if v2 && !exact && c.is_some() && c != Some(r) {
         // the v2 column compression depends on the order of the entries: compare the v1 re-encodings up to a permutation
@@ -113,7 +117,40 @@ fn bytes_match_v(cx: &mut Cx, c: Option<&[u8]>, r: &[u8], exact: bool, v2: bool)
     }
     match c { None => false, Some(c) if c == r => true, Some(c) => { if exact || c.len() != r.len() { return false; } let (mut a, mut b) = (c.to_vec(), r.to_vec()); a.sort(); b.sort(); if a == b { cx.add("state_bytes_equal_up_to_permutation", 1); true } else { false } } }
 }
-unsafe fn compare_state<T: ReadTxn>(cx: &mut Cx, ct: *mut y::Transaction, rtx: &T, alt: bool, exact: bool, skip_bytes: bool) -> Result<(), Fail> {
+/// Canonical, unit-level rendering of the store an update produces in a fresh document: invariant under the way runs of
+/// items / collected ranges are split into blocks and under the entry order of json maps - the two things that depend on
+/// std HashMap iteration order inside yrs and differ between two native documents fed the same calls.
+fn canon_of_update(bytes: &[u8], v2: bool) -> Option<String> {
+    use yrs::verif::{dump_store, VBlock, VContent, VParent};
+    let u = if v2 { Update::decode_v2(bytes).ok()? } else { Update::decode_v1(bytes).ok()? };
+    let d = mk_doc(99, true); d.transact_mut().apply_update(u).ok()?;
+    let txn = d.transact(); let vs = dump_store(&txn);
+    let pid = |i: &Option<yrs::ID>| i.map(|i| format!("{}:{}", i.client.get(), i.clock)).unwrap_or_else(|| "-".into());
+    let mut out = String::new();
+    if vs.has_pending || vs.has_pending_ds { out.push_str("PENDING "); }
+    for (c, blocks) in &vs.blocks { for b in blocks { match b {
+        VBlock::GC(id, len) => for k in 0..*len { out.push_str(&format!("{}:{}=G;", c, id.clock + k)); },
+        VBlock::Skip(id, len) => out.push_str(&format!("{}:{}=S{};", c, id.clock, len)),
+        VBlock::Item(it) => {
+            let parent = match &it.parent { VParent::Root(n) => format!("R{}", hx(n.as_bytes())), VParent::Nested(i) => format!("N{}:{}", i.client.get(), i.clock), VParent::Unknown => "?".into() };
+            let units: Vec<String> = match &it.content {
+                VContent::Any(v) => v.iter().map(jany_of_any).collect(), VContent::Binary(b) => vec![format!("b{}", hx(b))], VContent::Deleted(n) => vec!["x".to_string(); *n as usize],
+                VContent::Doc(g) => vec![format!("d{}", g)], VContent::Json(v) => v.iter().map(|s| format!("j{}", hx(s.as_bytes()))).collect(), VContent::Embed(a) => vec![format!("e{}", jany_of_any(a))],
+                VContent::Format(k, a) => vec![format!("f{}={}", hx(k.as_bytes()), jany_of_any(a))], VContent::String(st) => st.encode_utf16().map(|u| format!("u{:x}", u)).collect(), VContent::Type(t) => vec![format!("t{:?}", t)],
+            };
+            for k in 0..it.len {
+                let origin = if k == 0 { pid(&it.origin) } else { format!("{}:{}", c, it.id.clock + k - 1) };
+                out.push_str(&format!("{}:{}{}={} o{} r{} p{}/{};", c, it.id.clock + k, if it.deleted { "~" } else { "" }, units.get(k as usize).cloned().unwrap_or_else(|| "?".into()), origin, pid(&it.right_origin), parent, it.parent_sub.as_deref().map(|s| hx(s.as_bytes())).unwrap_or_default()));
+            }
+        }
+    } } }
+    Some(out)
+}
+/// full-state payloads: equal bytes, or (HashMap order inside yrs, see above) equal canonical stores
+fn state_match(cx: &mut Cx, c: Option<&[u8]>, r: &[u8], v2: bool, exact: bool, exact_cases_too: &mut bool) -> bool {
+    match c { None => false, Some(c) if c == r => { cx.add("state_payloads_byte_equal", 1); true } Some(c) => match (canon_of_update(c, v2), canon_of_update(r, v2)) { (Some(a), Some(b)) if a == b => { cx.add(if exact { "state_bytes_differ_but_canonical_stores_equal(single-key cases)" } else { "state_bytes_differ_but_canonical_stores_equal" }, 1); *exact_cases_too = true; true } _ => false } }
+}
+unsafe fn compare_state<T: ReadTxn>(cx: &mut Cx, ct: *mut y::Transaction, rtx: &T, alt: bool, exact: bool, skip_bytes: bool, tolerate: &mut bool) -> Result<(), Fail> {
     let empty_sv = StateVector::default().encode_v1();
     let (svp, svl) = if alt { (empty_sv.as_ptr() as *const c_char, empty_sv.len() as u32) } else { (null(), 0) };
     let mut n = 0u32;
@@ -121,12 +158,19 @@ unsafe fn compare_state<T: ReadTxn>(cx: &mut Cx, ct: *mut y::Transaction, rtx: &
     let (r1, r2, rs) = match catch(AssertUnwindSafe(|| (rtx.encode_state_as_update_v1(&StateVector::default()), rtx.encode_state_as_update_v2(&StateVector::default()), rtx.state_vector().encode_v1()))) {
         Ok(x) => x, Err(e) => fail!("native-call-panics", "function": "ytransaction_state_diff_v1", "op": "encode_state_as_update on the twin after the last transaction of the script", "panic": e, "detail": "the native encoder panicked on the twin's store; the C function was not called (it would abort)"),
     };
+    // with an update pending (waiting for missing dependencies) the C function encodes the integrated store only (encode_diff);
+    // the native encode_state_as_update_* appends the pending payload - there the corresponding native call is encode_diff_*
+    let (r1, r2) = if rtx.store().pending_update().is_some() || rtx.store().pending_ds().is_some() {
+        let (d1, d2) = (rtx.encode_diff_v1(&StateVector::default()), rtx.encode_diff_v2(&StateVector::default()));
+        cx.add(if d1 != r1 { "pending:state_diff_equals_encode_diff_not_encode_state_as_update" } else { "pending:encode_diff_equals_encode_state_as_update" }, 1);
+        (d1, d2)
+    } else { (r1, r2) };
     let c1 = take_binary(y::ytransaction_state_diff_v1(ct, svp, svl, &mut n), n); cx.used("ytransaction_state_diff_v1");
     if skip_bytes { if c1.is_none() { fail!("encoded-state-differs", "encoding": "v1", "c": "NULL"); } cx.add("state_compare_skipped_multi_key_attrs", 1); }
-    else if !bytes_match(cx, c1.as_deref(), &r1, exact) { fail!("encoded-state-differs", "encoding": "v1", "c": c1.map(|b| hx(&b)), "twin": hx(&r1)); }
+    else if !state_match(cx, c1.as_deref(), &r1, false, exact, tolerate) { fail!("encoded-state-differs", "encoding": "v1", "c": c1.map(|b| hx(&b)), "twin": hx(&r1)); }
     let c2 = take_binary(y::ytransaction_state_diff_v2(ct, svp, svl, &mut n), n); cx.used("ytransaction_state_diff_v2");
     if skip_bytes { if c2.is_none() { fail!("encoded-state-differs", "encoding": "v2", "c": "NULL"); } }
-    else if !bytes_match_v(cx, c2.as_deref(), &r2, exact, true) { fail!("encoded-state-differs", "encoding": "v2", "c": c2.map(|b| hx(&b)), "twin": hx(&r2)); }
+    else if !state_match(cx, c2.as_deref(), &r2, true, exact, tolerate) { fail!("encoded-state-differs", "encoding": "v2", "c": c2.map(|b| hx(&b)), "twin": hx(&r2)); }
     let cs = take_binary(y::ytransaction_state_vector_v1(ct, &mut n), n); cx.used("ytransaction_state_vector_v1");
     if cs.as_deref() != Some(&rs[..]) && !skip_bytes {
         let same = cs.as_ref().and_then(|b| StateVector::decode_v1(b).ok()).map(|s| s == rtx.state_vector()).unwrap_or(false);
@@ -150,8 +194,11 @@ unsafe fn run_case(seed: u64, index: u64, script: &mut Vec<String>, cx: &mut Cx,
     // plain cases, and the encoded state is then not compared (content, cells, state vector still are)
     let multi_attrs = !exact && !exchange && !undo && r.chance(1, 2);
     let fmt_key: &str = *r.pick(&FORMAT_KEYS);
+    let (observers, sticky) = (observers && !multi_attrs, sticky && !multi_attrs); // the items (ids, event deltas) of multi-key formatting differ between native documents too
+    let docobs = r.chance(1, 2);
+    let force_gc = !undo && r.chance(1, 4);
     let gen = GenCfg { text: true, array: true, map: true, xml: !undo, nested: !undo };
-    info.mode = format!("{}{}{}{}{}", if undo { "undo" } else if exchange { "exchange" } else { "plain" }, if observers { "+obs" } else { "" }, if sticky { "+sticky" } else { "" }, if snapshots { "+snap" } else { "" }, if skip_gc { "+skipgc" } else { "+gc" }) + if exact { "+exact" } else if multi_attrs { "+maps+attrs" } else { "+maps" };
+    info.mode = format!("{}{}{}{}{}", if undo { "undo" } else if exchange { "exchange" } else { "plain" }, if observers { "+obs" } else { "" }, if sticky { "+sticky" } else { "" }, if snapshots { "+snap" } else { "" }, if skip_gc { "+skipgc" } else { "+gc" }) + if exact { "+exact" } else if multi_attrs { "+multikey-maps-and-attrs" } else { "+multikey-maps" } + if docobs { "+docobs" } else { "" } + if force_gc { "+forcegc" } else { "" };
     info.exchange = exchange;
     script.push(format!("mode {} origin={:?}", info.mode, origin));
     macro_rules! log { ($($a:tt)*) => {{ let s = format!($($a)*); if debug { eprintln!("{}", s); } script.push(s); }} }
@@ -161,16 +208,37 @@ unsafe fn run_case(seed: u64, index: u64, script: &mut Vec<String>, cx: &mut Cx,
     let copts = y::YOptions { id: 1, guid: guid.as_ptr(), collection_id: null(), flags: y::Y_OFFSET_UTF16 | y::Y_SHOULD_LOAD | if skip_gc { y::Y_SKIP_GC } else { 0 } };
     let cdoc = y::ydoc_new_with_options(copts); cx.used("ydoc_new_with_options");
     let names: Vec<CString> = ROOT_NAMES.iter().map(|n| CString::new(*n).unwrap()).collect();
-    let mut c = CSide { doc: cdoc, roots: [y::ytext(cdoc, names[0].as_ptr()), y::yarray(cdoc, names[1].as_ptr()), y::ymap(cdoc, names[2].as_ptr()), y::yxmlfragment(cdoc, names[3].as_ptr())], txn: null_mut(), subs: vec![], states: vec![], stickies: vec![], mgr: null_mut() };
+    let mut c = CSide { doc: cdoc, roots: [y::ytext(cdoc, names[0].as_ptr()), y::yarray(cdoc, names[1].as_ptr()), y::ymap(cdoc, names[2].as_ptr()), y::yxmlfragment(cdoc, names[3].as_ptr())], txn: null_mut(), subs: vec![], states: vec![], stickies: vec![], mgr: null_mut(), dobs: Box::into_raw(Box::new(DocObs::default())) };
     let same_doc: &Doc = &*cdoc; // the Box<yrs::Doc> behind the handle, for reading doc C through the Rust API
     let sroots = roots_of(same_doc);
     let rdoc = mk_doc(1, skip_gc); let rroots = roots_of(&rdoc);
+    // a second native twin fed the same native calls: where two NATIVE documents already disagree about the encoded bytes (std HashMap
+    // iteration order inside yrs), a disagreement between doc C and the twin says nothing about the C layer
+    let r2doc = mk_doc(1, skip_gc); let r2roots = roots_of(&r2doc); let mut tolerate_bytes = false;
     let q = if exchange { Some(mk_doc(3, skip_gc)) } else { None }; let qroots = q.as_ref().map(roots_of);
+    let qlog: std::sync::Arc<std::sync::Mutex<Vec<Vec<u8>>>> = Default::default();
+    let _qsub = q.as_ref().map(|q| { let l = qlog.clone(); q.observe_update_v1(move |_, e| l.lock().unwrap().push(e.update.clone())).unwrap() });
+    let mut pending_left = if exchange && r.chance(1, 3) { 1 } else { 0 };
     if y::ydoc_id(cdoc) != 1 { fail!("doc-options-differ", "ydoc_id": y::ydoc_id(cdoc)); }
     let g = take_string(y::ydoc_guid(cdoc)); if g.as_deref() != Some("c19") { fail!("doc-options-differ", "ydoc_guid": g); }
     if same_doc.skip_gc() != skip_gc || y::ydoc_should_load(cdoc) != 1 || y::ydoc_auto_load(cdoc) != 0 || !take_string(y::ydoc_collection_id(cdoc)).is_none() { fail!("doc-options-differ", "detail": "flags"); }
     for i in 0..4 { if branch_of_out(&sroots[i]) != c.roots[i] as *const y::Branch || y::ytype_kind(c.roots[i]) != ROOT_KINDS[i] { fail!("branch-pointer-differs", "at": ROOT_NAMES[i], "detail": "root constructor"); } }
 
+    { // a clone of the handle is the same document
+        let cl = y::ydoc_clone(cdoc); cx.used("ydoc_clone");
+        let same = y::ydoc_id(cl) == 1 && y::ytext(cl, names[0].as_ptr()) == c.roots[0];
+        y::ydoc_destroy(cl);
+        if !same { fail!("doc-options-differ", "detail": "ydoc_clone does not refer to the same document"); }
+    }
+    // ---- document-level observers: the update payloads and transaction summaries the C callbacks receive against the twin's
+    let rdobs: std::sync::Arc<std::sync::Mutex<DocObs>> = Default::default(); let mut rdsubs: Vec<Subscription> = vec![];
+    if docobs {
+        c.subs.push(y::ydoc_observe_updates_v1(cdoc, c.dobs as *mut c_void, upd_v1_cb)); c.subs.push(y::ydoc_observe_updates_v2(cdoc, c.dobs as *mut c_void, upd_v2_cb)); c.subs.push(y::ydoc_observe_after_transaction(cdoc, c.dobs as *mut c_void, after_cb));
+        for f in ["ydoc_observe_updates_v1", "ydoc_observe_updates_v2", "ydoc_observe_after_transaction"] { cx.used(f); }
+        let l = rdobs.clone(); rdsubs.push(rdoc.observe_update_v1(move |_, e| l.lock().unwrap().v1.push(e.update.clone())).unwrap());
+        let l = rdobs.clone(); rdsubs.push(rdoc.observe_update_v2(move |_, e| l.lock().unwrap().v2.push(e.update.clone())).unwrap());
+        let l = rdobs.clone(); rdsubs.push(rdoc.observe_transaction_cleanup(move |_, e| l.lock().unwrap().after.push(format!("before={} after={} deleted={}", r_sv(&e.before_state), r_sv(&e.after_state), r_ids(&e.delete_set)))).unwrap());
+    }
     // ---- observers
     let mut rlogs: Vec<Log> = vec![]; let mut rsubs: Vec<Subscription> = vec![]; let mut obs_names: Vec<&str> = vec![];
     if observers {
@@ -192,23 +260,28 @@ unsafe fn run_case(seed: u64, index: u64, script: &mut Vec<String>, cx: &mut Cx,
         }
     }
     // ---- undo managers
-    let mut rmgr: Option<UndoManager<()>> = None;
+    let mut rmgr: Option<UndoManager<()>> = None; let mut rmgr2: Option<UndoManager<()>> = None;
     if undo {
         let o = y::YUndoManagerOptions { capture_timeout_millis: 0 };
         c.mgr = y::yundo_manager(&o); cx.used("yundo_manager");
         let mut m: UndoManager<()> = UndoManager::with_options(yrs::undo::Options { capture_timeout_millis: 0, ..Default::default() });
+        let mut m2: UndoManager<()> = UndoManager::with_options(yrs::undo::Options { capture_timeout_millis: 0, ..Default::default() });
         let mut scope: Vec<usize> = vec![0, 1, 2]; r.shuffle(&mut scope); scope.truncate(r.range(1, 2) as usize);
         for i in &scope {
             y::yundo_manager_add_scope(c.mgr, c.doc, c.roots[*i]); cx.used("yundo_manager_add_scope");
             match &rroots[*i] { Out::YText(t) => m.expand_scope(&rdoc, t), Out::YArray(t) => m.expand_scope(&rdoc, t), Out::YMap(t) => m.expand_scope(&rdoc, t), _ => {} }
+            match &r2roots[*i] { Out::YText(t) => m2.expand_scope(&r2doc, t), Out::YArray(t) => m2.expand_scope(&r2doc, t), Out::YMap(t) => m2.expand_scope(&r2doc, t), _ => {} }
         }
-        if let Some(o) = origin { y::yundo_manager_add_origin(c.mgr, o.len() as u32, o.as_ptr() as *const c_char); cx.used("yundo_manager_add_origin"); m.include_origin(o); }
+        if let Some(o) = origin { y::yundo_manager_add_origin(c.mgr, o.len() as u32, o.as_ptr() as *const c_char); cx.used("yundo_manager_add_origin"); m.include_origin(o); m2.include_origin(o); }
+        c.subs.push(y::yundo_manager_observe_added(c.mgr, c.dobs as *mut c_void, undo_added_cb)); c.subs.push(y::yundo_manager_observe_popped(c.mgr, c.dobs as *mut c_void, undo_popped_cb)); cx.used("yundo_manager_observe_added"); cx.used("yundo_manager_observe_popped");
+        let norm = |o: Option<&yrs::Origin>| match o { None => "none".to_string(), Some(o) if o.as_ref() == b"me" => hx(b"me"), Some(_) => "mgr".to_string() };
+        let l = rdobs.clone(); rdsubs.push(m.observe_item_added(move |_, e| l.lock().unwrap().undo_added.push(format!("kind={} origin={} meta_null=true", match e.kind() { yrs::undo::EventKind::Undo => 0, yrs::undo::EventKind::Redo => 1 }, norm(e.origin())))));
+        let l = rdobs.clone(); rdsubs.push(m.observe_item_popped(move |_, e| l.lock().unwrap().undo_popped.push(format!("kind={} origin={} meta_null=true", match e.kind() { yrs::undo::EventKind::Undo => 0, yrs::undo::EventKind::Redo => 1 }, norm(e.origin())))));
         log!("undo manager over {:?}", scope.iter().map(|i| ROOT_NAMES[*i]).collect::<Vec<_>>());
-        rmgr = Some(m);
+        rmgr = Some(m); rmgr2 = Some(m2);
     }
     let mut stickies: Vec<StickyPair> = vec![];
     let mut snaps: Vec<Vec<u8>> = vec![];
-    let mut built = 0u64;
 
     // ---- everything that is compared after a step
     macro_rules! compare_all { () => {{
@@ -217,9 +290,68 @@ unsafe fn run_case(seed: u64, index: u64, script: &mut Vec<String>, cx: &mut Cx,
         c.txn = ct;
         if y::ytransaction_writeable(ct) != 0 { fail!("transaction-writeable-differs", "detail": "read transaction reports writeable"); }
         let stx = same_doc.transact(); let rtx = rdoc.transact();
-        compare_state(cx, ct, &rtx, r.chance(1, 2), exact, multi_attrs)?;
+        if !tolerate_bytes && !multi_attrs {
+            let r2x = r2doc.transact();
+            let same = catch(AssertUnwindSafe(|| bytes_match_quiet(&rtx.encode_state_as_update_v1(&StateVector::default()), &r2x.encode_state_as_update_v1(&StateVector::default()), exact))).unwrap_or(true);
+            if !same { tolerate_bytes = true; cx.add("cases_where_two_native_twins_encode_differently", 1); }
+        }
+        compare_state(cx, ct, &rtx, r.chance(1, 2), exact, multi_attrs, &mut tolerate_bytes)?;
         { let nm = CString::new("t").unwrap(); if y::ytype_get(ct, nm.as_ptr()) != c.roots[0] { fail!("branch-pointer-differs", "at": "t", "detail": "ytype_get"); } let no = CString::new("never-defined").unwrap(); if !y::ytype_get(ct, no.as_ptr()).is_null() { fail!("branch-pointer-differs", "at": "never-defined", "detail": "ytype_get of an undefined root is not NULL"); } }
         for i in 0..4 { walk(cx, ct, c.roots[i], &sroots[i], &stx, &rroots[i], &rtx, ROOT_NAMES[i], 0)?; }
+        // document-level observers
+        {
+            let co = std::mem::take(&mut *c.dobs); let ro = std::mem::take(&mut *rdobs.lock().unwrap());
+            let norm_c = |v: Vec<String>| -> Vec<String> { v.into_iter().map(|s| { let p = s.find("origin=").unwrap_or(0); let q = s[p..].find(' ').map(|i| p + i).unwrap_or(s.len()); let o = &s[p + 7..q]; if o == "none" || o == hx(b"me") { s.clone() } else { format!("{}origin=mgr{}", &s[..p], &s[q..]) } }).collect() };
+            if docobs {
+                if co.v1.len() != ro.v1.len() || co.v2.len() != ro.v2.len() { fail!("update-event-differs", "detail": "number of update events", "c_v1": co.v1.len(), "twin_v1": ro.v1.len(), "c_v2": co.v2.len(), "twin_v2": ro.v2.len()); }
+                for (a, b) in co.v1.iter().zip(ro.v1.iter()) { cx.add("update_events_compared", 1); cx.add("state_bytes_compared", b.len() as u64); if !multi_attrs && !tolerate_bytes && !bytes_match(cx, Some(a), b, exact) { fail!("update-event-differs", "encoding": "v1", "c": hx(a), "twin": hx(b)); } }
+                for (a, b) in co.v2.iter().zip(ro.v2.iter()) { cx.add("update_events_compared", 1); cx.add("state_bytes_compared", b.len() as u64); if !multi_attrs && !tolerate_bytes && !bytes_match_v(cx, Some(a), b, exact, true) { fail!("update-event-differs", "encoding": "v2", "c": hx(a), "twin": hx(b)); } }
+                cx.add("after_transaction_events_compared", ro.after.len() as u64);
+                if !multi_attrs && !tolerate_bytes && co.after != ro.after { fail!("after-transaction-event-differs", "c": co.after, "twin": ro.after); }
+            }
+            let (ca, cp) = (norm_c(co.undo_added), norm_c(co.undo_popped));
+            cx.add("undo_events_compared", (ro.undo_added.len() + ro.undo_popped.len()) as u64);
+            if ca != ro.undo_added || cp != ro.undo_popped { fail!("undo-event-differs", "c_added": ca, "twin_added": ro.undo_added, "c_popped": cp, "twin_popped": ro.undo_popped); }
+        }
+        // pending structures: nothing is ever pending in these programs, on either side
+        {
+            let pu = y::ytransaction_pending_update(ct); let pd = y::ytransaction_pending_ds(ct); cx.used("ytransaction_pending_update"); cx.used("ytransaction_pending_ds");
+            let (ru, rd) = (rtx.store().pending_update().is_some(), rtx.store().pending_ds().is_some());
+            let (cu, cd) = (!pu.is_null(), !pd.is_null());
+            let cdesc = if cu { let p = &*pu; let mut v: Vec<(u64, u32)> = (0..p.missing.entries_count as usize).map(|i| (*p.missing.client_ids.add(i), *p.missing.clocks.add(i))).collect(); v.sort(); format!("missing={:?} update={}", v, hx(std::slice::from_raw_parts(p.update_v1 as *const u8, p.update_len as usize))) } else { "none".into() };
+            let rdesc = match rtx.store().pending_update() { Some(p) => { let mut v: Vec<(u64, u32)> = p.missing.iter().map(|(c, k)| (c.get(), *k)).collect(); v.sort(); format!("missing={:?} update={}", v, hx(&p.update.encode_v1())) } None => "none".into() };
+            let cds = if cd { let p = &*pd; let mut v: Vec<(u64, Vec<(u32, u32)>)> = (0..p.entries_count as usize).map(|i| { let q = &*p.ranges.add(i); (*p.client_ids.add(i), (0..q.len as usize).map(|k| ((*q.seq.add(k)).start, (*q.seq.add(k)).end)).collect()) }).collect(); v.sort(); format!("{:?}", v) } else { "none".into() };
+            let rds = match rtx.store().pending_ds() { Some(d) => { let mut v: Vec<(u64, Vec<(u32, u32)>)> = d.iter().map(|(c, r)| (c.get(), r.iter().map(|x| (x.start, x.end)).collect())).collect(); v.sort(); format!("{:?}", v) } None => "none".into() };
+            y::ypending_update_destroy(pu); y::ydelete_set_destroy(pd);
+            if cu { cx.add("pending_updates_compared", 1); } if cd { cx.add("pending_delete_sets_compared", 1); }
+            if cu != ru || cd != rd || cdesc != rdesc || cds != rds { fail!("pending-differs", "c_update": cdesc, "twin_update": rdesc, "c_ds": cds, "twin_ds": rds); }
+            // while one transaction is open no write transaction can be had, on either side
+            let w = y::ydoc_write_transaction(c.doc, 0, null());
+            if !w.is_null() { y::ytransaction_commit(w); fail!("transaction-not-created", "detail": "ydoc_write_transaction returned a transaction while a read transaction is open (the native try_transact_mut refuses)"); }
+            if rdoc.try_transact_mut().is_ok() { fail!("harness-error", "detail": "twin hands out a write transaction next to a read transaction"); }
+        }
+        // JSON path queries
+        if r.chance(1, 4) {
+            for q in ["$.a[0]", "$.a[*]", "$.m.k1", "$.m.*", "$..k2", "$.a[1:3]", "$.x[0]"] {
+                let cq = CString::new(q).unwrap(); let it = y::ytransaction_json_path(ct, cq.as_ptr()); cx.used("ytransaction_json_path");
+                let jp = yrs::JsonPath::parse(q);
+                match (it.is_null(), jp) {
+                    (true, Err(_)) => {}
+                    (false, Ok(jp)) => {
+                        let mut cv = vec![]; let mut cells = 0;
+                        loop { let o = y::yjson_path_iter_next(it); if o.is_null() { break; } cv.push(cell_of_c(o, &mut cells)); y::youtput_destroy(o); if cv.len() > 300 { break; } }
+                        y::yjson_path_iter_destroy(it);
+                        let mut rv: Vec<String> = { use yrs::JsonPathEval; rtx.json_path(&jp).map(|o| cell_of_out(&o)).collect() };
+                        let mut sv: Vec<String> = { use yrs::JsonPathEval; stx.json_path(&jp).map(|o| cell_of_out(&o)).collect() };
+                        cx.add("json_path_results_compared", rv.len() as u64);
+                        if cv != sv { fail!("json-path-differs", "query": q, "c": cv, "rust_same_doc": sv); }
+                        cv.sort(); rv.sort(); sv.sort(); // wildcards over maps come in HashMap order
+                        if cv != rv { fail!("json-path-differs", "query": q, "c": cv, "twin": rv); }
+                    }
+                    (cn, jp) => { if !it.is_null() { y::yjson_path_iter_destroy(it); } fail!("json-path-differs", "query": q, "c_is_null": cn, "twin_parses": jp.is_ok()) }
+                }
+            }
+        }
         // observers: one rendering per firing, per observer
         for (i, l) in rlogs.iter().enumerate() {
             let st = &mut *c.states[i]; let cl = std::mem::take(&mut st.log); let rl = std::mem::take(&mut *l.lock().unwrap());
@@ -238,7 +370,7 @@ unsafe fn run_case(seed: u64, index: u64, script: &mut Vec<String>, cx: &mut Cx,
             if cdesc != rdesc || !same_ok { fail!("sticky-index-read-differs", "sticky": s.desc.clone(), "c": cdesc, "twin": rdesc, "agrees_with_rust_on_same_doc": same_ok); }
         }
         // snapshots
-        if snapshots && !multi_attrs && r.chance(1, 3) {
+        if snapshots && !multi_attrs && !tolerate_bytes && r.chance(1, 3) {
             let mut n = 0u32;
             let cs = take_binary(y::ytransaction_snapshot(ct, &mut n), n); cx.used("ytransaction_snapshot");
             let rs = rtx.snapshot().encode_v1();
@@ -270,7 +402,24 @@ unsafe fn run_case(seed: u64, index: u64, script: &mut Vec<String>, cx: &mut Cx,
     let n_ops = r.range(20, 60); let mut done = 0u64; let mut txns = 0u64;
     while done < n_ops {
         let action = r.below(100);
-        if exchange && action < 12 {
+        if exchange && pending_left > 0 && action < 6 {
+            // out of order delivery: Q commits two transactions, only the second one's update reaches C and the twin -> it has to wait
+            pending_left -= 1;
+            let (qd, qr) = (q.as_ref().unwrap(), qroots.as_ref().unwrap());
+            qlog.lock().unwrap().clear();
+            for _ in 0..2 { let mut qt = qd.transact_mut(); let idx = match &qr[1] { Out::YArray(a) => yrs::Array::len(a, &qt), _ => 0 }; let op = Op::ArrInsert { p: Path { root: 1, segs: vec![] }, idx, vals: vec![Val::J(J::Int(7))] }; log!("Q: {}", op.show()); exec_r(qr, &mut qt, &op); }
+            let ups: Vec<Vec<u8>> = qlog.lock().unwrap().clone();
+            if ups.len() == 2 {
+                let upd = &ups[1]; log!("deliver only Q's second update ({} bytes)", upd.len());
+                open_write(&mut c, None)?;
+                let rc = y::ytransaction_apply(c.txn, upd.as_ptr() as *const c_char, upd.len() as u32);
+                commit(&mut c);
+                if rc != 0 { fail!("apply-error-code-differs", "c": rc, "twin_error": "none", "at": "update with missing dependencies"); }
+                rdoc.transact_mut().apply_update(Update::decode_v1(upd).unwrap()).map_err(|e| json!({"class": "harness-error", "detail": format!("{e}")}))?;
+                let _ = r2doc.transact_mut().apply_update(Update::decode_v1(upd).unwrap());
+                cx.add("out_of_order_deliveries", 1);
+            }
+        } else if exchange && action < 12 {
             // the third replica edits concurrently
             let (qd, qr) = (q.as_ref().unwrap(), qroots.as_ref().unwrap());
             let mut qt = qd.transact_mut();
@@ -289,14 +438,16 @@ unsafe fn run_case(seed: u64, index: u64, script: &mut Vec<String>, cx: &mut Cx,
                 let rc = if v2 { y::ytransaction_apply_v2(c.txn, part.as_ptr() as *const c_char, cut as u32) } else { y::ytransaction_apply(c.txn, part.as_ptr() as *const c_char, cut as u32) };
                 let re = if v2 { Update::decode_v2(part).err() } else { Update::decode_v1(part).err() };
                 match re { Some(e) => { cx.add("apply_error_codes_compared", 1); if rc != read_err_code(&e) { fail!("apply-error-code-differs", "c": rc, "twin_error": format!("{e}"), "expected_code": read_err_code(&e)); } }
-                           None => { let u = if v2 { Update::decode_v2(part).unwrap() } else { Update::decode_v1(part).unwrap() }; let _ = rdoc.transact_mut().apply_update(u); if rc != 0 { fail!("apply-error-code-differs", "c": rc, "twin_error": "none (prefix decodes)"); } } }
+                           None => { let u = if v2 { Update::decode_v2(part).unwrap() } else { Update::decode_v1(part).unwrap() }; let _ = rdoc.transact_mut().apply_update(u); let _ = r2doc.transact_mut().apply_update(if v2 { Update::decode_v2(part).unwrap() } else { Update::decode_v1(part).unwrap() }); if rc != 0 { fail!("apply-error-code-differs", "c": rc, "twin_error": "none (prefix decodes)"); } } }
                 log!("  (truncated to {} bytes first: code {})", cut, rc);
             }
+            { let d = if v2 { y::yupdate_debug_v2(upd.as_ptr() as *const c_char, upd.len() as u32) } else { y::yupdate_debug_v1(upd.as_ptr() as *const c_char, upd.len() as u32) }; cx.used(if v2 { "yupdate_debug_v2" } else { "yupdate_debug_v1" }); let txt = take_string(d); if txt.is_none() { fail!("update-debug-differs", "detail": "yupdate_debug returned NULL for a payload the native decoder accepts"); } }
             let rc = if v2 { cx.used("ytransaction_apply_v2"); y::ytransaction_apply_v2(c.txn, upd.as_ptr() as *const c_char, upd.len() as u32) } else { cx.used("ytransaction_apply"); y::ytransaction_apply(c.txn, upd.as_ptr() as *const c_char, upd.len() as u32) };
             if rc != 0 { fail!("apply-error-code-differs", "c": rc, "twin_error": "none"); }
             commit(&mut c);
             let u = if v2 { Update::decode_v2(&upd) } else { Update::decode_v1(&upd) }.map_err(|e| json!({"class": "harness-error", "detail": format!("{e}")}))?;
             rdoc.transact_mut().apply_update(u).map_err(|e| json!({"class": "harness-error", "detail": format!("twin apply: {e}")}))?;
+            let _ = r2doc.transact_mut().apply_update(if v2 { Update::decode_v2(&upd) } else { Update::decode_v1(&upd) }.unwrap());
             cx.add("updates_applied_through_c", 1); cx.add("update_bytes_applied", upd.len() as u64);
         } else if exchange && action < 34 {
             // C -> Q: the diff against Q's state vector, computed by the C function, must be the twin's
@@ -305,33 +456,37 @@ unsafe fn run_case(seed: u64, index: u64, script: &mut Vec<String>, cx: &mut Cx,
             let ct = y::ydoc_read_transaction(c.doc); c.txn = ct; let mut n = 0u32;
             let d = if v2 { take_binary(y::ytransaction_state_diff_v2(ct, qb.as_ptr() as *const c_char, qb.len() as u32, &mut n), n) } else { take_binary(y::ytransaction_state_diff_v1(ct, qb.as_ptr() as *const c_char, qb.len() as u32, &mut n), n) };
             commit(&mut c);
-            let e = if v2 { rdoc.transact().encode_state_as_update_v2(&qsv) } else { rdoc.transact().encode_state_as_update_v1(&qsv) };
+            let e = { let t = rdoc.transact(); let pend = t.store().pending_update().is_some() || t.store().pending_ds().is_some();
+                if pend { if v2 { t.encode_diff_v2(&qsv) } else { t.encode_diff_v1(&qsv) } } else if v2 { t.encode_state_as_update_v2(&qsv) } else { t.encode_state_as_update_v1(&qsv) } };
             log!("sync C->Q ({}, {} bytes)", if v2 { "v2" } else { "v1" }, e.len());
-            if !bytes_match_v(cx, d.as_deref(), &e, exact, v2) { fail!("state-diff-differs", "encoding": if v2 { "v2" } else { "v1" }, "c": d.map(|b| hx(&b)), "twin": hx(&e)); }
+            if !tolerate_bytes && !bytes_match_v(cx, d.as_deref(), &e, exact, v2) { fail!("state-diff-differs", "encoding": if v2 { "v2" } else { "v1" }, "c": d.map(|b| hx(&b)), "twin": hx(&e)); }
             let u = if v2 { Update::decode_v2(&e) } else { Update::decode_v1(&e) }.map_err(|e| json!({"class": "harness-error", "detail": format!("{e}")}))?;
             qd.transact_mut().apply_update(u).map_err(|e| json!({"class": "harness-error", "detail": format!("Q apply: {e}")}))?;
             cx.add("diffs_computed_through_c", 1); cx.add("state_bytes_compared", e.len() as u64);
         } else if undo && action < 30 {
             let m = rmgr.as_mut().unwrap();
             match r.below(10) {
-                0..=4 => { let cr = y::yundo_manager_undo(c.mgr); let rr = m.undo_blocking(); cx.used("yundo_manager_undo"); log!("undo -> {}", cr); if cr != rr as u8 { fail!("undo-result-differs", "call": "undo", "c": cr, "twin": rr); } cx.add("undo_calls", 1); }
-                5..=7 => { let cr = y::yundo_manager_redo(c.mgr); let rr = m.redo_blocking(); cx.used("yundo_manager_redo"); log!("redo -> {}", cr); if cr != rr as u8 { fail!("undo-result-differs", "call": "redo", "c": cr, "twin": rr); } cx.add("redo_calls", 1); }
-                8 => { y::yundo_manager_stop(c.mgr); m.reset(); cx.used("yundo_manager_stop"); log!("undo manager stop"); }
-                _ => if r.chance(1, 3) { y::yundo_manager_clear(c.mgr); m.clear_all(); cx.used("yundo_manager_clear"); log!("undo manager clear"); },
+                0..=4 => { let cr = y::yundo_manager_undo(c.mgr); let rr = m.undo_blocking(); rmgr2.as_mut().unwrap().undo_blocking(); cx.used("yundo_manager_undo"); log!("undo -> {}", cr); if cr != rr as u8 { fail!("undo-result-differs", "call": "undo", "c": cr, "twin": rr); } cx.add("undo_calls", 1); }
+                5..=7 => { let cr = y::yundo_manager_redo(c.mgr); let rr = m.redo_blocking(); rmgr2.as_mut().unwrap().redo_blocking(); cx.used("yundo_manager_redo"); log!("redo -> {}", cr); if cr != rr as u8 { fail!("undo-result-differs", "call": "redo", "c": cr, "twin": rr); } cx.add("redo_calls", 1); }
+                8 => { y::yundo_manager_stop(c.mgr); m.reset(); rmgr2.as_mut().unwrap().reset(); cx.used("yundo_manager_stop"); log!("undo manager stop"); }
+                _ => if r.chance(1, 3) { y::yundo_manager_clear(c.mgr); m.clear_all(); rmgr2.as_mut().unwrap().clear_all(); cx.used("yundo_manager_clear"); log!("undo manager clear"); },
             }
         } else {
             // one local transaction of 1-4 operations on both documents
             let k = r.range(1, 4).min(n_ops - done);
             open_write(&mut c, origin)?; cx.used("ydoc_write_transaction");
             let mut rt = match origin { None => rdoc.transact_mut(), Some(o) => rdoc.transact_mut_with(o) };
+            let mut rt2 = match origin { None => r2doc.transact_mut(), Some(o) => r2doc.transact_mut_with(o) };
+            { let rd = y::ydoc_read_transaction(c.doc); if !rd.is_null() { y::ytransaction_commit(rd); fail!("transaction-not-created", "detail": "ydoc_read_transaction returned a transaction while a write transaction is open"); } }
             log!("begin");
             for _ in 0..k {
                 let mut op = gen_op(&mut r, &gen, &rroots, &rt); if exact { prune_op(&mut op); } if !multi_attrs { prune_op_attrs(&mut op, fmt_key); } if exchange { json_safe_op(&mut op); }
                 log!("{}", op.show());
                 if op.uses_nested() { info.nested = true; }
                 // the twin first: a call that panics natively (the C wrapper would abort the process on it) ends the case as a native defect, not as a difference
-                let rres = match catch(AssertUnwindSafe(|| exec_r(&rroots, &mut rt, &op))) { Ok(x) => x, Err(e) => { std::mem::forget(rt); std::mem::forget(rmgr.take()); fail!("native-call-panics", "op": op.show(), "function": op.kind_name(), "panic": e, "detail": "the native call of the twin panicked on in-range arguments; the C function was not called (it would abort)") } };
-                let cres = exec_c(&c.roots, c.txn, &op, &mut built)?;
+                let rres = match catch(AssertUnwindSafe(|| exec_r(&rroots, &mut rt, &op))) { Ok(x) => x, Err(e) => { std::mem::forget(rt); std::mem::forget(rt2); std::mem::forget(rmgr.take()); std::mem::forget(rmgr2.take()); fail!("native-call-panics", "op": op.show(), "function": op.kind_name(), "panic": e, "detail": "the native call of the twin panicked on in-range arguments; the C function was not called (it would abort)") } };
+                let _ = catch(AssertUnwindSafe(|| exec_r(&r2roots, &mut rt2, &op)));
+                let cres = exec_c(&c.roots, c.txn, &op, &mut cx.cnt)?;
                 cx.add(&format!("op:{}", op.kind_name()), 1);
                 if cres != rres { fail!("return-value-differs", "op": op.show(), "c": cres, "twin": rres); }
                 done += 1;
@@ -369,8 +524,9 @@ unsafe fn run_case(seed: u64, index: u64, script: &mut Vec<String>, cx: &mut Cx,
                     (cn, rp) => fail!("sticky-index-creation-differs", "sticky": desc, "c_is_null": cn, "twin_is_none": rp.is_none()),
                 }
             }
+            if force_gc && r.chance(1, 5) { y::ytransaction_force_gc(c.txn); rt.gc(None); rt2.gc(None); cx.used("ytransaction_force_gc"); log!("force_gc"); }
             commit(&mut c); cx.used("ytransaction_commit");
-            drop(rt);
+            drop(rt); drop(rt2);
             log!("commit");
             txns += 1;
         }
@@ -387,6 +543,7 @@ unsafe fn run_case(seed: u64, index: u64, script: &mut Vec<String>, cx: &mut Cx,
         commit(&mut c);
         if rc != 0 { fail!("apply-error-code-differs", "c": rc, "twin_error": "none", "at": "final exchange"); }
         rdoc.transact_mut().apply_update(Update::decode_v1(&upd).unwrap()).map_err(|e| json!({"class": "harness-error", "detail": format!("{e}")}))?;
+        let _ = r2doc.transact_mut().apply_update(Update::decode_v1(&upd).unwrap());
         log!("final exchange");
         compare_all!();
         let qsv = qd.transact().state_vector(); let qb = qsv.encode_v1();
@@ -398,10 +555,10 @@ unsafe fn run_case(seed: u64, index: u64, script: &mut Vec<String>, cx: &mut Cx,
         cx.add("convergence_checks", 1);
         if dc != dr || dc != dq { fail!("replicas-diverge", "c": dc, "twin": dr, "q": dq); }
     }
-    cx.add("transactions", txns); cx.add("input_cells_built", built);
+    cx.add("transactions", txns);
     for s in c.states.iter() { cx.add("observer_callbacks", (**s).calls); }
     // teardown: twin side first where it refers to nothing of C; C side through its destroy functions (CSide::drop)
-    drop(rmgr); drop(rsubs);
+    drop(rdsubs); drop(rmgr); drop(rmgr2); drop(rsubs);
     for f in ["ydoc_destroy"] { cx.used(f); }
     if !c.subs.is_empty() { cx.used("yunobserve"); } if !c.mgr.is_null() { cx.used("yundo_manager_destroy"); } if !c.stickies.is_empty() { cx.used("ysticky_index_destroy"); }
     drop(stickies);
@@ -423,32 +580,68 @@ pub unsafe fn run_probe(name: &str) {
     let nx = CString::new("x").unwrap();
     match name {
         "xmlfragment-string" => { let x = y::yxmlfragment(doc, nx.as_ptr()); let t = y::ydoc_read_transaction(doc); let s = y::yxmlelem_string(x, t); y::ystring_destroy(s); y::ytransaction_commit(t); }
-        "exp" => {
-            use yrs::{Array, ArrayPrelim, In, TextPrelim, XmlTextPrelim, Map};
-            let d = mk_doc(1, true); let a = d.get_or_insert_array("a");
-            { let mut t = d.transact_mut(); a.insert(&mut t, 0, In::from(TextPrelim::new(""))); }
-            println!("In::from(TextPrelim(\"\")): {}", hx(&d.transact().encode_state_as_update_v1(&StateVector::default())));
-            let d = mk_doc(1, true); let a = d.get_or_insert_array("a");
-            { let mut t = d.transact_mut(); a.insert(&mut t, 0, TextPrelim::new("")); }
-            println!("TextPrelim(\"\"): {}", hx(&d.transact().encode_state_as_update_v1(&StateVector::default())));
-            let d = mk_doc(1, true); let a = d.get_or_insert_array("a");
-            { let mut t = d.transact_mut(); a.insert(&mut t, 0, In::from(XmlTextPrelim::new(""))); }
-            println!("In::from(XmlTextPrelim(\"\")): {}", hx(&d.transact().encode_state_as_update_v1(&StateVector::default())));
-            let d = mk_doc(1, true); let a = d.get_or_insert_array("a");
-            { let mut t = d.transact_mut(); a.insert(&mut t, 0, ArrayPrelim::from([In::from(TextPrelim::new(""))])); }
-            println!("ArrayPrelim[In Text \"\"]: {}", hx(&d.transact().encode_state_as_update_v1(&StateVector::default())));
-            let _ = d.get_or_insert_map("m").len(&d.transact());
+        "undo-while-transaction-open" => {
+            let nt = CString::new("t").unwrap(); let a = CString::new("a").unwrap();
+            let t = y::ytext(doc, nt.as_ptr()); let o = y::YUndoManagerOptions { capture_timeout_millis: 0 }; let mgr = y::yundo_manager(&o); y::yundo_manager_add_scope(mgr, doc, t);
+            let txn = y::ydoc_write_transaction(doc, 0, null()); y::ytext_insert(t, txn, 0, a.as_ptr(), null()); y::ytransaction_commit(txn);
+            let txn = y::ydoc_read_transaction(doc);
+            let r = y::yundo_manager_undo(mgr);
+            println!("returned {}", r);
+            y::ytransaction_commit(txn); y::yundo_manager_destroy(mgr);
         }
         _ => { eprintln!("unknown probe {}", name); std::process::exit(2); }
     }
     y::ydoc_destroy(doc);
+}
+/// Deterministic miniature scripts for differences that the random programs work around (so that their cases can go on):
+/// each difference still shows up as one failure with its minimal script.
+pub fn scripted_findings(rep: &mut Report) {
+    use yrs::Array;
+    unsafe {
+        // an update whose dependencies are missing stays pending: ytransaction_state_diff_v1/_v2 (encode_diff) leave it out, the
+        // native encode_state_as_update_v1/_v2 append it
+        rep.evaluations += 1; rep.count("scripted_checks");
+        let q = mk_doc(3, false); let qa = q.get_or_insert_array("a");
+        let log: std::sync::Arc<std::sync::Mutex<Vec<Vec<u8>>>> = Default::default(); let l = log.clone();
+        let _s = q.observe_update_v1(move |_, e| l.lock().unwrap().push(e.update.clone())).unwrap();
+        { let mut t = q.transact_mut(); qa.insert(&mut t, 0, 1i64); } { let mut t = q.transact_mut(); qa.insert(&mut t, 1, 2i64); }
+        let second = log.lock().unwrap()[1].clone();
+        let twin = mk_doc(1, false); twin.get_or_insert_array("a"); twin.transact_mut().apply_update(Update::decode_v1(&second).unwrap()).unwrap();
+        let guid = CString::new("c19").unwrap(); let na = CString::new("a").unwrap();
+        let cdoc = y::ydoc_new_with_options(y::YOptions { id: 1, guid: guid.as_ptr(), collection_id: null(), flags: y::Y_OFFSET_UTF16 | y::Y_SHOULD_LOAD });
+        y::yarray(cdoc, na.as_ptr());
+        let t = y::ydoc_write_transaction(cdoc, 0, null()); let rc = y::ytransaction_apply(t, second.as_ptr() as *const c_char, second.len() as u32); y::ytransaction_commit(t);
+        let t = y::ydoc_read_transaction(cdoc); let mut n = 0u32;
+        let c1 = take_binary(y::ytransaction_state_diff_v1(t, null(), 0, &mut n), n).unwrap_or_default();
+        let c2 = take_binary(y::ytransaction_state_diff_v2(t, null(), 0, &mut n), n).unwrap_or_default();
+        y::ytransaction_commit(t); y::ydoc_destroy(cdoc);
+        let tx = twin.transact();
+        let (s1, s2, d1, d2) = (tx.encode_state_as_update_v1(&StateVector::default()), tx.encode_state_as_update_v2(&StateVector::default()), tx.encode_diff_v1(&StateVector::default()), tx.encode_diff_v2(&StateVector::default()));
+        let _ = (&s1, &s2);
+        if rc != 0 || c1 != d1 || c2 != d2 {
+            rep.fail(json!({"property": "C19", "class": "state-diff-differs-from-native-encode-diff", "case": {"stream": 19, "scripted": "pending-update"},
+                "script": ["Q (native, client 3): a.insert(0, 1) ; a.insert(1, 2)   // two transactions, two incremental updates", "doc C: ytransaction_apply(txn, <Q's SECOND update only>) -> 0 ; commit   // the update has to wait for the first one", "twin (native): apply_update(<the same bytes>)", "ytransaction_state_diff_v1(txn, NULL, 0) / _v2  vs  twin.encode_state_as_update_v1(&StateVector::default()) / _v2"],
+                "apply_code": rc, "c_v1": hx(&c1), "twin_encode_state_as_update_v1": hx(&s1), "twin_encode_diff_v1": hx(&d1), "c_equals_native_encode_diff": c1 == d1 && c2 == d2,
+                "detail": "the C functions encode the integrated store only (Store::encode_diff); the native encode_state_as_update_* also carries the pending update, so a peer syncing through the C API never forwards it"}));
+        }
+    }
+    rep.notes.push("C19 observations (documentation of yffi vs behaviour, same on the native side, not counted as failures): ytransaction_state_diff_v1/_v2 delegate to encode_diff and, like it, leave a pending update out (the native encode_state_as_update_* carries it); yundo_manager_undo / _redo call undo_blocking / redo_blocking and, like them, never return while another transaction on the document is open (the doc comment promises Y_FALSE); a string output cell carries len = UTF-8 byte length (the YOutput doc comment says 1 for every non-collection cell; the Coq model uses the byte length); YDeltaOut.len of an inserted chunk is 1 whatever the chunk's length; yxmlelem_tag() of the root returned by yxmlfragment() is NULL (documented: \"UNDEFINED\"); ysticky_index_read leaves its out parameters untouched when the index cannot be resolved.".to_string());
+    rep.notes.push("C19 comparison rules: std HashMap iteration order inside yrs (entry order of json maps in the encoding, order - even number - of the format items of multi-key / negated attributes, merging of collected ranges) makes two NATIVE documents fed the same calls encode differently; where the bytes of doc C and the twin differ the stores the two payloads produce in a fresh document are compared unit by unit (counter state_bytes_differ_but_canonical_stores_equal), cases with multi-key formatting attributes compare content only (state_compare_skipped_multi_key_attrs).".to_string());
 }
 /// run every abort probe in a child process; a child that dies is a failure of class "c-function-aborts"
 pub fn run_probes(rep: &mut Report) {
     let exe = std::env::current_exe().expect("current_exe");
     for (name, function, script) in probes() {
         rep.evaluations += 1; rep.count("abort_probes");
-        let st = std::process::Command::new(&exe).args(["C19", "--probe", name]).stdout(std::process::Stdio::null()).stderr(std::process::Stdio::piped()).output();
+        // a probe that does not come back within 5 s is killed: the call hangs
+        let st = std::process::Command::new(&exe).args(["C19", "--probe", name]).stdout(std::process::Stdio::null()).stderr(std::process::Stdio::piped()).spawn().and_then(|mut ch| {
+            let t0 = std::time::Instant::now();
+            loop { if ch.try_wait()?.is_some() { break; } if t0.elapsed().as_secs() >= 5 { let _ = ch.kill(); let _ = ch.wait();
+                    rep.fail(json!({"property": "C19", "class": "c-function-hangs", "probe": name, "function": function, "script": script, "case": {"stream": 19, "probe": name}, "detail": "no return within 5 s; the child process was killed"}));
+                    return Ok(None); } std::thread::sleep(std::time::Duration::from_millis(20)); }
+            ch.wait_with_output().map(Some)
+        });
+        let st = match st { Ok(None) => continue, Ok(Some(o)) => Ok(o), Err(e) => Err(e) };
         match st {
             Ok(o) if o.status.success() => { rep.count("abort_probes_survived"); }
             Ok(o) => { use std::os::unix::process::ExitStatusExt; let err = String::from_utf8_lossy(&o.stderr); let msg: String = err.lines().find(|l| l.contains("PANIC") || l.contains("panicked")).unwrap_or("").chars().take(300).collect();
